@@ -107,7 +107,7 @@ def _safe_timezone(
         if hasattr(obj, "key"):
             obj = obj.key
         # pytz
-        elif hasattr(obj, "localize"):
+        elif hasattr(obj, "localize") and getattr(obj, "zone", None) is not None:
             obj = obj.zone  # type: ignore[attr-defined]
         elif obj.tzname(None) == "UTC":
             return UTC
